@@ -1,4 +1,5 @@
 pub mod chooser;
 pub mod clock;
+pub mod rand_seam;
 pub mod runner;
 pub mod sched;
